@@ -1,4 +1,4 @@
-import QibProofs.Lemmas.TNetSurgeryMergeFull
+import QibProofs.Lemmas.TNetSurgeryTotal
 /-!
 C08 — Network surgery keeps the network consistent and means what it says.
 Property theorems only (helper lemmas: `QibProofs/Lemmas/TNetSurgery*.lean`, `TNetBasic.lean`, `TNetSum.lean`).
@@ -132,6 +132,16 @@ theorem C08_merge_rejects_out_of_range {a b : Net} {j : List (Int × Int)} {tor 
     (h : ∃ ja ∈ j, ¬ (0 ≤ ja.1 ∧ ja.1 < oa ∧ 0 ≤ ja.2 ∧ ja.2 < ob)) : merge a b j tor bor = .error .valueError :=
   merge_out_of_range hoa hob h
 
+/-- **The guard of `merge` is exact**: on consistent operands, with every join pair inside the open axes and of
+matching dimensions, `merge` either returns a network or stops at its own `assert` (a fused bond would be left with
+fewer than two references, e.g. a closed loop of identity wires) – no other exception can occur. -/
+theorem C08_merge_returns_or_asserts {a b : Net} {j : List (Int × Int)} {tor bor : List Int} (ha : Inv a) (hb : Inv b)
+    (ho : OrdersOK a b tor bor) (hdim : JoinDimsMatch a b j) {va vb : STensor}
+    (hva : dget a.tensors (-1) = some va) (hvb : dget b.tensors (-1) = some vb)
+    (hrange : ∀ ja ∈ j, 0 ≤ ja.1 ∧ ja.1 < va.shape.length ∧ 0 ≤ ja.2 ∧ ja.2 < vb.shape.length) :
+    (∃ net', merge a b j tor bor = .ok net') ∨ merge a b j tor bor = .error .assertion :=
+  merge_total ((C08_inv_iff_wf a).mp ha) ((C08_inv_iff_wf b).mp hb) ho.1 ho.2 hdim hva hvb hrange
+
 /-! ### counting laws -/
 
 /-- `rename_tensor`, `rename_bond`, `transpose` change no count -/
@@ -204,6 +214,16 @@ theorem C08_merge_counts {a b net' : Net} {j : List (Int × Int)} {tor bor : Lis
     numTensors_eq wb.virt, numOpenAxes_eq hva, numOpenAxes_eq hvb, ?_, ?_, by omega, c2, c3⟩
   · rw [numTensors_eq r.wf.virt]; congr 1; omega
   · rw [numOpenAxes_eq hv']; congr 1; omega
+
+/-- **The number of bonds after `merge`, exactly**: the sum minus the number of effective fusions. `fuseCount`
+processes the pairs of bond ids on the joined axes (tagged by operand) in order: a pair that is already on one bond
+fuses nothing, any other pair fuses two bonds into one – the rank of the join graph (touched bonds − connected
+components), so axes reused in several pairs and several axes on one bond are accounted for. -/
+theorem C08_merge_numBonds {a b net' : Net} {j : List (Int × Int)} {tor bor : List Int} (ha : Inv a) (hb : Inv b)
+    (ho : OrdersOK a b tor bor) (hdim : JoinDimsMatch a b j) (hok : merge a b j tor bor = .ok net')
+    {va vb : STensor} (hva : dget a.tensors (-1) = some va) (hvb : dget b.tensors (-1) = some vb) :
+    numBonds net' + fuseCount (taggedPairs va vb j) = numBonds a + numBonds b :=
+  merge_numBonds ((C08_inv_iff_wf a).mp ha) ((C08_inv_iff_wf b).mp hb) ho.1 ho.2 hdim hok hva hvb
 
 /-! ### what the operations mean: the contracted value `full`
 
@@ -331,6 +351,37 @@ theorem C08_merge_full_outer {a b net' : Net} {tor bor : List Int} (ha : Inv a) 
         · rw [if_neg c2]
     rw [List.map_congr_left h1, sum_delta_nodup _ (nodup_allIdx _), if_pos hy]
   rw [List.map_congr_left hterm, sum_delta_nodup _ (nodup_allIdx _), if_pos hx]
+
+/-- **The data dictionaries are united correctly** (`TensorNetwork.merge`): if the two networks come with their own data
+assignments `Da`, `Db` that agree on every data reference used by both (what the equality check on clashing
+dictionary entries enforces), then under the united assignment – the second operand's entries extend/override the
+first's, as `dict.update` does – the merged network is the contraction of the value of the first network under `Da`
+with the value of the second under `Db`. -/
+theorem C08_merge_full_data_union {a b net' : Net} {j : List (Int × Int)} {tor bor : List Int} (ha : Inv a)
+    (hb : Inv b) (ho : OrdersOK a b tor bor) (hdim : JoinDimsMatch a b j) (hok : merge a b j tor bor = .ok net')
+    (Da Db : Option Int → List Nat → α) (hclash : ∀ r ∈ dataRefs a, r ∈ dataRefs b → Da r = Db r)
+    {va vb : STensor} (hva : dget a.tensors (-1) = some va) (hvb : dget b.tensors (-1) = some vb) :
+    ∃ v', dget net'.tensors (-1) = some v' ∧
+      ∀ idx ∈ allIdx v'.shape, full net' (fun r => if r ∈ dataRefs b then Db r else Da r) idx =
+        ((allIdx va.shape).map (fun x => ((allIdx vb.shape).map (fun y =>
+          if pickD (x ++ y) 0 (remainingAxes va.shape.length vb.shape.length j) == idx && joinsAgree j x y then
+            full a Da x * full b Db y else 0)).sum)).sum := by
+  obtain ⟨v', hv', _, hval⟩ := C08_merge_full ha hb ho hdim hok (fun r => if r ∈ dataRefs b then Db r else Da r) hva hvb
+  refine ⟨v', hv', fun idx hidx => ?_⟩
+  rw [hval idx hidx]
+  have e1 : ∀ x, full a (fun r => if r ∈ dataRefs b then Db r else Da r) x = full a Da x := by
+    intro x
+    apply full_congr_data
+    intro r hr
+    by_cases hrb : r ∈ dataRefs b
+    · simp only [hrb, if_true]; exact (hclash r hr hrb).symm
+    · simp only [hrb, if_false]
+  have e2 : ∀ y, full b (fun r => if r ∈ dataRefs b then Db r else Da r) y = full b Db y := by
+    intro y
+    apply full_congr_data
+    intro r hr
+    simp only [hr, if_true]
+  simp only [e1, e2]
 
 /-- **`merge` depends on its second operand only through that operand's value**: two second operands with the same
 shape and the same contracted values give merged networks with the same shape and the same values (whatever their
@@ -498,7 +549,31 @@ theorem C08_ops_consistent (ops : List Op) (nets : List Net) (h : ∀ n ∈ nets
 def wrapNet : Net :=
   ⟨[(0, ⟨0, [2, 3], [0, 1], some 7⟩), (-1, ⟨-1, [2, 3], [0, 1], none⟩)], [(0, ⟨0, [-1, 0]⟩), (1, ⟨1, [-1, 0]⟩)]⟩
 
+example : Inv wrapNet := ⟨⟨by decide, by decide, by decide, by decide⟩, by decide +kernel⟩
 example : isConsistent wrapNet = .ok true := by decide +kernel
+/-- the orders handed to `merge` in the examples are the shared ids -/
+example : OrdersOK wrapNet wrapNet [0, -1] [0, 1] := ⟨by decide, by decide⟩
+example : JoinDimsMatch wrapNet wrapNet [(0, 0)] := by
+  intro va vb hva hvb ja hja
+  have e1 : va = ⟨-1, [2, 3], [0, 1], none⟩ := by
+    have : dget wrapNet.tensors (-1) = some ⟨-1, [2, 3], [0, 1], none⟩ := by decide
+    rw [this] at hva; exact (Option.some.inj hva).symm
+  have e2 : vb = ⟨-1, [2, 3], [0, 1], none⟩ := by
+    have : dget wrapNet.tensors (-1) = some ⟨-1, [2, 3], [0, 1], none⟩ := by decide
+    rw [this] at hvb; exact (Option.some.inj hvb).symm
+  simp only [List.mem_singleton] at hja
+  subst hja e1 e2
+  decide
+/-- merging the wrapped 2×3 array with itself over axis 0: three bonds remain (four minus one fusion), two open axes -/
+example : (merge wrapNet wrapNet [(0, 0)] [0, -1] [0, 1]).toOption.map
+    (fun n => (n.tensors.map (fun e => (e.1, e.2.shape, e.2.bids)), n.bonds.map (fun e => (e.1, e.2.tids)))) =
+    some ([(0, [2, 3], [0, 1]), (-1, [3, 3], [1, 3]), (1, [2, 3], [0, 3])], [(0, [0, 1]), (1, [-1, 0]), (3, [-1, 1])]) := by
+  decide +kernel
+/-- `fuseCount`: three join pairs forming one connected component over four bonds fuse three times -/
+example : fuseCount [((Sum.inl 0 : Sum Int Int), (Sum.inr 0 : Sum Int Int)), (Sum.inl 0, Sum.inr 1), (Sum.inl 1, Sum.inr 1)] = 3 := by
+  decide +kernel
+example : fuseCount [((Sum.inl 0 : Sum Int Int), (Sum.inr 0 : Sum Int Int)), (Sum.inl 0, Sum.inr 0)] = 1 := by
+  decide +kernel
 example : (transpose wrapNet none).toOption.map (fun n => n.tensors.map (·.2.shape)) = some [[2, 3], [3, 2]] := by
   decide +kernel
 example : (renameTensor wrapNet 0 5).toOption.map (fun n => n.bonds.map (·.2.tids)) = some [[-1, 5], [-1, 5]] := by
